@@ -87,8 +87,9 @@ CELL_PROFILE = {
 
 MASTER_PROFILE = {
     'weights': {'app': 12, 'prio': 6, 'allocs': 4, 'rm': 2, 'restart': 2,
-                'cycle': 8},
-    'force': ['prio', 'allocs'],
+                'cycle': 8, 'allocrepart': 3},
+    'force': ['prio', 'allocs', 'allocrepart'],
+    'max_parts': 3,
     'lease': False, 'traits': False,
     'max_ops': 20,
 }
@@ -273,6 +274,27 @@ def execute_master(case, stats):
                 seen['explicit'] = True
             if prio == 0:
                 seen['zero'] = True
+        # every instance is considered exactly once, in the cycle of the
+        # partition its declared allocation belongs to
+        sim.refresh_app_decl()
+        times = {}
+        for label, entries in info.queues:
+            for name, _rank, _srv in entries:
+                times[name] = times.get(name, 0) + 1
+                want = sim.decl_apps[name]['label']
+                if name in cell.apps and want != label:
+                    raise Violation(
+                        'c06.master.wrong-partition',
+                        '%s (declared allocation %s, partition %s) is '
+                        'considered in the cycle of partition %s' %
+                        (name, ref[name][0], want, label))
+        for name in cell.apps:
+            if times.get(name, 0) != 1:
+                raise Violation(
+                    'c06.master.once',
+                    '%s is considered %d times in this cycle (queues of %s)'
+                    % (name, times.get(name, 0),
+                       [label for label, _e in info.queues]))
         for label, entries in info.queues:
             zero_seen = {}
             per_alloc = {}
